@@ -12,11 +12,11 @@ def profile(prop, tier):
     q = tier == "quick"
     p = {"prop": prop, "max_ops": (10, 50) if q else (20, 80), "graphs": (2, 4),
          "k_weights": [(2, 5), (3, 3)], "verbose_share": 0.4,
-         "clients": {"coder": 4, "designer": 2, "converter": 3, "analyst": 2, "shuffler": 1, "trimmer": 1,
-                     "rng": 1, "clock": 0.5}}
+         "clients": {"coder": 4, "designer": 2, "converter": 3, "analyst": 2, "shuffler": 1, "trimmer": 1.5,
+                     "rng": 1, "clock": 0.5, "owner": 0.7}}
     if prop == "C18":
         p["clients"] = {"coder": 4, "designer": 0.5, "converter": 0.5, "analyst": 1.5, "shuffler": 6, "trimmer": 1.5,
-                        "rng": 3, "clock": 1}
+                        "rng": 3, "clock": 1, "owner": 1.5}
         p["max_ops"] = (10, 40)
     elif prop == "C19":
         p["clients"] = {"coder": 2, "designer": 0.5, "converter": 2, "analyst": 1.5, "shuffler": 0.3, "trimmer": 8,
@@ -127,7 +127,12 @@ class Sim(object):
                                    ("empty", 0.3 if self.prop == "C17" else 0.05), ("dag", 0.4 if self.prop == "C17" else 0.1),
                                    ("doc", 0.5)])
             if shape == "regular":
-                arcs = G.rows_to_arcs(G.regular_closed_rows(rng, k, rng.randint(1, 4)))
+                if rng.random() < 0.4:
+                    arcs = G.rows_to_arcs(G.regular_dangling_rows(rng, k, rng.randint(1, 3)))
+                elif rng.random() < 0.5:
+                    arcs = G.rows_to_arcs(G.regular_norepeat_rows(rng, k, rng.randint(1, 3)))
+                else:
+                    arcs = G.rows_to_arcs(G.regular_closed_rows(rng, k, rng.randint(1, 4)))
             elif shape == "empty":
                 arcs = "0" * (4 ** (k + 1))
             elif shape == "dag":
@@ -358,6 +363,10 @@ class Sim(object):
             return {"op": "CALL", "fn": fn, "args": {"vertex_index": ["lit", rng.randrange(4 ** self.k_of(lm))],
                                                     "depth": ["lit", rng.randint(0, 3)], "latter_map": ["ref", lm]}}
         k = rng.choice([1, 2, 3])
+        if fn == "get_complete_accessor" and self.prop == "C20" and rng.random() < 0.25:
+            # thousands of progress states in one verbose call (results of this size are not kept in the store)
+            return {"op": "CALL", "fn": "get_complete_accessor", "verbose": True,
+                    "args": {"observed_length": ["lit", rng.choice([5, 6])]}}
         if fn in ("obtain_formers", "obtain_latters"):
             return {"op": "CALL", "fn": fn, "args": {"current": ["lit", rng.randrange(4 ** k)],
                                                     "observed_length": ["lit", k]}}
@@ -385,7 +394,8 @@ class Sim(object):
 
     def client_shuffler(self):
         rng = self.rng
-        k = weighted(rng, [(1, 2), (2, 4), (3, 3), (4, 2), (5, 1), (6, 0.5)]) if self.prop == "C18" else rng.choice([1, 2, 3])
+        k = weighted(rng, [(1, 2), (2, 4), (3, 3), (4, 2), (5, 1), (6, 0.5)]) if self.prop == "C18" else \
+            rng.choice([1, 2, 3, 3, 6] if self.prop == "C20" else [1, 2, 3])
         seed = weighted(rng, [(None, 2), (0, 1), (1, 1), (2021, 2), (2 ** 32 - 1, 1), (rng.getrandbits(20), 4),
                               (rng.choice([7, 11, 13]), 4)])
         return {"op": "CALL", "fn": "create_random_shuffles", "verbose": self.verbose(),
@@ -395,6 +405,18 @@ class Sim(object):
     def client_trimmer(self):
         rng = self.rng
         pairs = [p for p in sorted(self.world.pairs) if not self.world.pairs[p]["dead"]]
+        if self.prop in ("C20", "C19") and rng.random() < 0.2 and len(self.world.pairs) < 4:
+            # take over (no copy) a latter map or an accessor that an earlier call handed back
+            store = self.world.store
+            cands = [n for n in sorted(self.world.owned) if n in store.objs and store.kinds[n] in ("lm", "acc")
+                     and (store.meta[n].get("k") or 9) <= 3 and not store.meta[n].get("pair")]
+            if cands:
+                name = self.fresh_name("P")
+                self.do({"op": "NEW", "kind": "pair-adopt", "name": name, "from": rng.choice(cands),
+                         "lm_order": rng.getrandbits(20) if rng.random() < 0.3 else None})
+                if name in self.world.pairs:
+                    self.flags[name] = (rng.random() < 0.7, rng.random() < 0.7)
+                    pairs = [name]
         if not pairs or (rng.random() < 0.05 and len(self.world.pairs) < 3):
             name = self.new_pair()
             if name is None:
@@ -407,6 +429,15 @@ class Sim(object):
                 "args": {"accessor": ["ref", p + ".acc"], "latter_map": ["ref", p + ".lm"],
                          "iteration": ["lit", model["removed"]], "has_insertion": ["lit", ins],
                          "has_deletion": ["lit", dele]}}
+
+    def client_owner(self):
+        """The owner of something the library handed back edits it in place."""
+        rng = self.rng
+        names = [n for n in sorted(self.world.owned) if n in self.world.store.objs and
+                 self.world.store.kinds[n] in ("table", "bits", "mask")]
+        if not names:
+            return None
+        return {"op": "OWNEDIT", "name": rng.choice(names), "how": rng.getrandbits(20)}
 
     def client_rng(self):
         rng = self.rng
